@@ -18,6 +18,13 @@ struct Fam {
     module_field: Option<&'static str>,
 }
 
+impl Fam {
+    /// function values: compared by identity of definition and equality of captured values
+    fn func(&self) -> bool {
+        self.key.starts_with("fn:")
+    }
+}
+
 const FAMS: &[Fam] = &[
     Fam { key: "int:5", ty: "'int", exprs: &["5", "[2, 3] __integer_add__", "[10, 2] __integer_divide__"], tuple: false, module_field: Some("i") },
     Fam { key: "int:6", ty: "'int", exprs: &["6", "[2, 4] __integer_add__"], tuple: false, module_field: None },
@@ -33,7 +40,16 @@ const FAMS: &[Fam] = &[
     Fam { key: "[1,0102]", ty: "['int, 'bin]", exprs: &["[1, 0x0102]", "[[0, 1] __integer_add__, [0x01, 0x02] __binary_concat__]", "[1 wd, 0x0102]"], tuple: true, module_field: None },
     Fam { key: "[P,5]", ty: "[P[x: 'int, y: 'bin], 'int]", exprs: &["[P[x: 1, y: 0x0102], 5]", "[P[x: [0, 1] __integer_add__, y: [0x01, 0x02] __binary_concat__], [2, 3] __integer_add__]", "[P[x: 1 wd, y: 0x0102], 5 wd]"], tuple: true, module_field: None },
     Fam { key: "Ok", ty: "Ok", exprs: &["Ok", "Ok"], tuple: true, module_field: None },
+    // closures of one definition with equal / different captures, another definition, a capture-less function
+    Fam { key: "fn:add3", ty: "(#'int -> 'int)", exprs: &["3 mka", "[1, 2] __integer_add__ mka"], tuple: false, module_field: None },
+    Fam { key: "fn:add4", ty: "(#'int -> 'int)", exprs: &["4 mka", "[2, 2] __integer_add__ mka"], tuple: false, module_field: None },
+    Fam { key: "fn:mul3", ty: "(#'int -> 'int)", exprs: &["3 mkm", "[1, 2] __integer_add__ mkm"], tuple: false, module_field: None },
+    Fam { key: "fn:cat0102", ty: "(#'bin -> 'bin)", exprs: &["0x0102 mkb", "[0x01, 0x02] __binary_concat__ mkb"], tuple: false, module_field: None },
+    Fam { key: "fn:cat0103", ty: "(#'bin -> 'bin)", exprs: &["0x0103 mkb", "[0x01, 0x03] __binary_concat__ mkb"], tuple: false, module_field: None },
+    Fam { key: "fn:inc", ty: "(#'int -> 'int)", exprs: &["&inc", "&inc"], tuple: false, module_field: None },
 ];
+
+const FN_DEFS: &str = "mka = #'int { =k, #'int { [~, k] __integer_add__ } }, mkm = #'int { =k, #'int { [~, k] __integer_multiply__ } }, mkb = #'bin { =k, #'bin { [~, k] __binary_concat__ } }, inc = #'int { [~, 1] __integer_add__ }";
 
 /// More than 2^16 refs minted on one worker, next to refs minted on every other worker.
 fn mass_mint(rng: &mut Rng) -> Scenario {
@@ -101,10 +117,10 @@ impl Property for C13 {
         }
     }
     fn rule_text(&self) -> &'static str {
-        "cases: pairs of values from a small universe (small/big ints, binaries as constant vs heap rope vs slice, named/unnamed/labelled tuples, nested, Ok) where one side is built locally and the other arrives as a process result, in a message to a comparer that captured the first, as a second spawn capture, from an in-memory module, or is built on a later REPL line after a same-shape tuple with different field types was merged; both orders of each comparison plus the reflexive one; refs minted by 1-4 processes (and the REPL process, across lines) returned and compared pairwise; handles of 1-3 processes obtained by the spawner, by `&.` in the body and by `&.` one and two calls deep, compared by the spawner and by a comparer process that captured them. The verdict vector must equal the model's structural equality, be symmetric and reflexive, and all minted refs must be pairwise distinct, under every sampled placement (1-6 workers) and schedule. Non-trivial: >=2 workers, >=1 out-of-order handled message, conclusive. Distinct = distinct (scenario shape, interleaving hash)."
+        "cases: pairs of values from a small universe (small/big ints, binaries as constant vs heap rope vs slice, named/unnamed/labelled tuples, nested, Ok, closures of one definition with equal and different int/binary captures, of another definition, a capture-less function) where one side is built locally and the other arrives as a process result, in a message to a comparer that captured the first, as a second spawn capture, from an in-memory module, or is built on a later REPL line after a same-shape tuple with different field types was merged; both orders of each comparison plus the reflexive one; refs minted by 1-4 processes (and the REPL process, across lines) returned and compared pairwise; handles of 1-3 processes obtained by the spawner, by `&.` in the body and by `&.` one and two calls deep, compared by the spawner and by a comparer process that captured them. The verdict vector must equal the model's structural equality, be symmetric and reflexive, and all minted refs must be pairwise distinct, under every sampled placement (1-6 workers) and schedule. Non-trivial: >=2 workers, >=1 out-of-order handled message, conclusive. Distinct = distinct (scenario shape, interleaving hash)."
     }
     fn required_probes(&self) -> Vec<&'static str> {
-        vec!["pair_via_process_result", "pair_via_message", "pair_via_spawn_capture", "pair_via_module", "pair_across_repl_lines", "refs_from_several_processes", "equal_pair_checked", "unequal_pair_checked", "mass_mint_over_2_16_refs_on_one_worker", "process_handles_from_several_call_depths"]
+        vec!["pair_via_process_result", "pair_via_message", "pair_via_spawn_capture", "pair_via_module", "pair_across_repl_lines", "refs_from_several_processes", "equal_pair_checked", "unequal_pair_checked", "mass_mint_over_2_16_refs_on_one_worker", "process_handles_from_several_call_depths", "function_values_compared"]
     }
     fn generate(&self, rng: &mut Rng, _tier: Tier) -> Scenario {
         let mut h = crate::rng::Fnv::default();
@@ -113,12 +129,13 @@ impl Property for C13 {
             return mass_mint(rng);
         }
         // `wd` widens an int to 'bin | 'int: tuples built through it get other inferred field types
-        let mut lines: Vec<Vec<String>> = vec![vec!["wd = #'int { | =0 => 0x00 | =n => n }".to_string()]]; // groups of statements; a new group = may start a new REPL line
+        let mut lines: Vec<Vec<String>> = vec![vec!["wd = #'int { | =0 => 0x00 | =n => n }".to_string(), FN_DEFS.to_string()]]; // groups of statements; a new group = may start a new REPL line
         let mut expected: Vec<String> = Vec::new();
         let mut transports: Vec<&'static str> = Vec::new();
         let mut uses_module = false;
         let mut eq_n = 0;
         let mut ne_n = 0;
+        let mut fn_pairs = 0;
         for k in 0..npairs {
             let fa = rng.usize(FAMS.len());
             // bias towards equal families and near misses
@@ -147,6 +164,12 @@ impl Property for C13 {
                     eb = w;
                 }
             }
+            // a function variable at the head of a chain would be called: reference it with `&`
+            let any_fn = a.func() || b.func();
+            let amp = if any_fn { "&" } else { "" };
+            if any_fn {
+                fn_pairs += 1;
+            }
             let cur = lines.last_mut().unwrap();
             cur.push(format!("a{k} = {ea}"));
             match tr {
@@ -162,14 +185,14 @@ impl Property for C13 {
                 2 => {
                     transports.push("pair_via_message");
                     // the comparer captured a{k}; b arrives as a message and is sent back as the result
-                    cur.push(format!("pc{k} = @{{ x = !#{}, [a{k} =&x, x =&a{k}, x] }}", b.ty));
+                    cur.push(format!("pc{k} = @{{ x = !#{}, [{amp}a{k} =&x, {amp}x =&a{k}, {amp}x] }}", b.ty));
                     cur.push(format!("{eb} pc{k}"));
                     cur.push(format!("[m{k}, n{k}, b{k}] = !pc{k}"));
                 }
                 3 => {
                     transports.push("pair_via_spawn_capture");
                     cur.push(format!("c{k} = {eb}"));
-                    cur.push(format!("pd{k} = @{{ [a{k} =&c{k}, c{k} =&a{k}, c{k}] }}"));
+                    cur.push(format!("pd{k} = @{{ [{amp}a{k} =&c{k}, {amp}c{k} =&a{k}, {amp}c{k}] }}"));
                     cur.push(format!("[m{k}, n{k}, b{k}] = !pd{k}"));
                 }
                 4 => {
@@ -188,9 +211,9 @@ impl Property for C13 {
             let cur = lines.last_mut().unwrap();
             // (a plain `v = a =&b` binding is avoided: after a failing pinned match the compiler
             // narrows `a` and drops later steps - a sequential-core matter outside this property)
-            cur.push(format!("[v{k}] = [a{k} =&b{k}]"));
-            cur.push(format!("[w{k}] = [b{k} =&a{k}]"));
-            cur.push(format!("[s{k}] = [a{k} =&a{k}]"));
+            cur.push(format!("[v{k}] = [{amp}a{k} =&b{k}]"));
+            cur.push(format!("[w{k}] = [{amp}b{k} =&a{k}]"));
+            cur.push(format!("[s{k}] = [{amp}a{k} =&a{k}]"));
             let verdict = if equal { "Ok" } else { "[]" };
             if equal {
                 eq_n += 1;
@@ -328,7 +351,7 @@ impl Property for C13 {
             timing: false,
             io: false,
             fixed_faults: Default::default(),
-            expect: serde_json::json!({ "value": expected_s, "transports": transports, "minters": nmint, "equal": eq_n, "unequal": ne_n, "handles": nhp }),
+            expect: serde_json::json!({ "value": expected_s, "transports": transports, "minters": nmint, "equal": eq_n, "unequal": ne_n, "handles": nhp, "fn_pairs": fn_pairs }),
             shape: h.0,
             est_len: 100,
             min_quantum: 0,
@@ -344,6 +367,9 @@ impl Property for C13 {
         }
         if scn.expect["minters"].as_u64().unwrap_or(0) >= 2 {
             m.insert("refs_from_several_processes".into(), 1);
+        }
+        if scn.expect["fn_pairs"].as_u64().unwrap_or(0) >= 1 {
+            m.insert("function_values_compared".into(), 1);
         }
         if scn.expect["handles"].as_u64().unwrap_or(0) >= 1 {
             m.insert("process_handles_from_several_call_depths".into(), 1);
